@@ -138,11 +138,11 @@ func run(n, M, P int, plain bool) (content []byte, printed []byte, logCalls int,
 	lg = dlog.VerifInstall(source.Client) // a serverless dcat is a client process
 	config.Server.MaxLineLength = M
 	content = verifrt.Bytes("c", n)
-	fs.VerifDefault = &fs.VerifSource{Content: content}
+	path := fs.VerifProvide(content)
 	sh := shandlers.VerifNewServerHandler(plain, true, true, 2, 2)
 	ch := chandlers.NewClientHandler("srv")
 
-	cat := fs.NewCatFile("f", "f", sh.VerifServerMessages())
+	cat := fs.NewCatFile(path, "f", sh.VerifServerMessages())
 	err := cat.Start(context.Background(), lcontext.LContext{}, sh.VerifLines(), regex.NewNoop())
 	verifrt.Assert(err == nil, "reading the file failed")
 
